@@ -300,6 +300,10 @@ func (df *DataFile) readToBuf(blockID uint32, offset uint32, buf *bytebufferpool
 	for {
 		// 当前 block 绝对偏移量
 		off := int64(blockID) * blockSize
+		// 已到达文件末尾
+		if off >= fileSize {
+			return io.EOF
+		}
 		// 当前 block 实际大小
 		size := uint32(min(fileSize-off, blockSize))
 
@@ -313,7 +317,8 @@ func (df *DataFile) readToBuf(blockID uint32, offset uint32, buf *bytebufferpool
 		}
 
 		// 对当前 chunk 解码
-		data, chunkType, err := DecodeChunk(block[offset:])
+		// 仅解码本次实际读取到的字节, 复用缓冲区中可能残留其他 block 的数据
+		data, chunkType, err := DecodeChunk(block[offset:size])
 		if err != nil {
 			return err
 		}
@@ -387,6 +392,10 @@ func (reader *DataReader) next() ([]byte, *DataPos, error) {
 	for {
 		// 当前 block 绝对偏移量
 		off := int64(reader.blockID) * blockSize
+		// 已到达文件末尾 (如上一条记录结束于距 block 边界不足一个 chunk 头部的位置)
+		if off >= fileSize {
+			return nil, nil, io.EOF
+		}
 		// 当前 block 实际大小
 		size := uint32(min(fileSize-off, blockSize))
 
@@ -401,7 +410,8 @@ func (reader *DataReader) next() ([]byte, *DataPos, error) {
 		}
 
 		// 对当前 chunk 解码
-		data, chunkType, err := DecodeChunk(reader.blockBuf[reader.offset:])
+		// 仅解码本次实际读取到的字节, 复用缓冲区中可能残留其他 block 的数据
+		data, chunkType, err := DecodeChunk(reader.blockBuf[reader.offset:size])
 		if err != nil {
 			return nil, nil, err
 		}
